@@ -26,21 +26,60 @@ from core import sexp
 # --------------------------------------------------------------------------------------------------
 
 
-class Term:
-    """Provenance term; indexable so that a multi-output result can be split by `Getter`."""
+FALSY = 1000  # `falsyBase` of lean/ForML/Model/Symbols.lean
 
-    __slots__ = ('kind', 'items', '_canon')
+
+def out_falsy(tag) -> bool:
+    """`Actor.falsyOut`: the symbolic actor's `apply` returns a payload that is falsy in Python (yet tells its origin)."""
+    return isinstance(tag, int) and tag // FALSY % 2 == 1
+
+
+def state_falsy(tag) -> bool:
+    """`Actor.falsyState`: the symbolic actor's `get_state()` returns a falsy payload."""
+    return isinstance(tag, int) and tag // (2 * FALSY) % 2 == 1
+
+
+def falsy_payload(kind, items) -> bool:
+    """`Val.truthy` negated, for the payload kinds that can be falsy (an output, a trained state, a stored state)."""
+    if kind == 'apply':
+        return out_falsy(items[0])
+    if kind == 'state':
+        return state_falsy(items[0])
+    if kind == 'stored':
+        return isinstance(items[0], int) and items[0] >= FALSY
+    return False
+
+
+def truthy_canon(v) -> bool:
+    """Truthiness of a canonical value (the oracle's twin of `Val.truthy`)."""
+    if v == 'none' or v is None:
+        return False
+    return not (isinstance(v, list) and v and isinstance(v[0], str) and falsy_payload(v[0], v[1:]))
+
+
+def as_state(v):
+    """`Val.asState`: the state an actor holds after it was offered `v` (forml's state setter skips a falsy value)."""
+    return v if truthy_canon(v) else 'none'
+
+
+class Term:
+    """Provenance term; indexable so that a multi-output result can be split by `Getter`. A term of a falsy kind
+    (`falsy_payload`) behaves like `b''` / an empty sequence: `bool()` is False, `len()` is 0 - and it still carries
+    its whole provenance, so that a flow layer that drops, skips or replaces it is found out."""
+
+    __slots__ = ('kind', 'items', '_canon', 'falsy')
 
     def __init__(self, kind, *items):
         self.kind = kind
         self.items = items
         self._canon = None
+        self.falsy = falsy_payload(kind, items)
 
-    def __len__(self):  # `SetState.set` logs `len(state)`
-        return 1
+    def __len__(self):  # `SetState.set` / `State.dump` log `len(state)`
+        return 0 if self.falsy else 1
 
     def __bool__(self):
-        return True
+        return not self.falsy
 
     def __iter__(self):
         raise TypeError('term is not iterable')
@@ -83,6 +122,11 @@ def _quiet_unraisable(unraisable):
 
 CALLS: list = []  # (tag, 'apply'|'train') — one entry per actor method invocation
 EXT = 100  # states of the externally committed generation: ('stored', EXT + position)
+
+
+def ext_index(base, i):
+    """States committed from outside: every other one a falsy state."""
+    return base + i + (FALSY if i % 2 else 0)
 
 
 def wrong_count(npers):
@@ -244,6 +288,16 @@ class Recorder:
         self.loads, self.dumps, self.commits = [], [], []
 
 
+def stored_index(i, b):
+    """prev entry: True = a stored state, 'f' = a falsy stored state (e.g. b''), False = nothing at that position."""
+    return None if not b else (FALSY + i if b == 'f' else i)
+
+
+def stored_term(i, b):
+    k = stored_index(i, b)
+    return None if k is None else Term('stored', k)
+
+
 def make_assets(spec, ex, rec: Recorder):
     """spec['assets'] = None | {'persistent': [group index | 'x<k>' foreign], 'prev': None | [0/1,...]}"""
     import uuid
@@ -288,7 +342,7 @@ def make_assets(spec, ex, rec: Recorder):
                 raise forml.MissingError('no previous generation')
             return self.states[key]
 
-    gen = Generation(None if prev is None else [Term('stored', i) if b else None for i, b in enumerate(prev)])
+    gen = Generation(None if prev is None else [stored_term(i, b) for i, b in enumerate(prev)])
     gids = []
     for p in a['persistent']:
         if isinstance(p, int) and p in ex['gids']:
@@ -416,7 +470,7 @@ def canon_table(table, hashes):
 
 def prev_values(prev):
     """spec['assets']['prev'] (None | list of bool) as canonical stored states by list position."""
-    return None if prev is None else [['stored', i] if b else 'none' for i, b in enumerate(prev)]
+    return None if prev is None else [['stored', stored_index(i, b)] if b else 'none' for i, b in enumerate(prev)]
 
 
 def eval_graph(ex, assets_spec, prev_vals='spec'):
@@ -455,14 +509,16 @@ def eval_graph(ex, assets_spec, prev_vals='spec'):
         onstack.add(u)
         _, gid, actor, stateful, szin, _ = workers[u]
         if u in trained:
-            res = ['state', actor, stored(gid) if stateful else 'none', port_value(feed[(u, 't', 0)]), port_value(feed[(u, 'l', 0)])]
+            # a falsy previous state is no state for the actor it is offered to (forml's state setter skips it)
+            res = ['state', actor, as_state(stored(gid)) if stateful else 'none', port_value(feed[(u, 't', 0)]),
+                   port_value(feed[(u, 'l', 0)])]
         else:
             if not stateful:
                 st = 'none'
             elif gid in trainer:
-                st = val(trainer[gid])
+                st = as_state(val(trainer[gid]))
             else:
-                st = stored(gid)
+                st = as_state(stored(gid))
             res = ['apply', actor, st, [port_value(feed[(u, 'a', i)]) for i in range(szin) if (u, 'a', i) in feed]]
         onstack.discard(u)
         memo[u] = res
@@ -526,7 +582,7 @@ def assets_sexp(a, ngroups):
         return None
     pers = [p if isinstance(p, int) else ngroups + 100 + int(p[1:]) for p in a['persistent']]
     prev = a.get('prev')
-    return [pers, [] if prev is None else [['stored', i] if b else None for i, b in enumerate(prev)]]
+    return [pers, [] if prev is None else [['stored', stored_index(i, b)] if b else None for i, b in enumerate(prev)]]
 
 
 def run_impl(spec):
@@ -585,9 +641,9 @@ def run_impl(spec):
             r = {}
             if step in (3, 4):
                 base, cnt = (EXT, npers) if step == 3 else (2 * EXT, wrong_count(npers))
-                r['external'] = {'states': [['stored', base + i] for i in range(cnt)], 'refused': None}
+                r['external'] = {'states': [['stored', ext_index(base, i)] for i in range(cnt)], 'refused': None}
                 try:
-                    assets.commit(tuple(Term('dumped', Term('stored', base + i)) for i in range(cnt)))
+                    assets.commit(tuple(Term('dumped', Term('stored', ext_index(base, i))) for i in range(cnt)))
                 except Exception as e:  # pylint: disable=broad-except
                     r['external']['refused'] = type(e).__name__
             del rec.loads[:], rec.dumps[:], rec.commits[:], CALLS[:]
@@ -636,6 +692,9 @@ def gen_spec(rng, size, *, mode=None, want_assets=None, malformed=False):
     def new_group(stateful):
         # actor symbols: mostly unique, sometimes a repeated (equal) builder
         tag = rng.choice([g['actor'] for g in groups]) if groups and rng.random() < 0.12 else len(groups)
+        if tag == len(groups) and rng.random() < 0.3:
+            # payload kind of the symbolic actor: falsy output and / or (stateful only) falsy trained state
+            tag += FALSY * (rng.choice([1, 2, 2, 3]) if stateful else 1)
         same = [g for g in groups if g['actor'] == tag]
         if same:
             stateful = same[0]['stateful']  # an actor class is either stateful or not
@@ -733,7 +792,7 @@ def gen_spec(rng, size, *, mode=None, want_assets=None, malformed=False):
         # previous generation: none / one state per group / fewer (missing positions load as "no state") / more (ignored)
         nprev = rng.choice([len(pers), len(pers), len(pers), max(0, len(pers) - 1), max(0, len(pers) - 2), 0, len(pers) + 1,
                             len(pers) + 2])
-        prev = None if rng.random() < 0.3 else [rng.random() < 0.8 for _ in range(nprev)]
+        prev = None if rng.random() < 0.3 else [rng.choice([True, True, True, 'f', 'f', False]) for _ in range(nprev)]
         spec['assets'] = {'persistent': pers, 'prev': prev}
     else:
         spec['assets'] = None
@@ -928,12 +987,32 @@ def enum_trainer_ports(full):
                         subs = [['a', 1, 0, 0, hout - 1], ['a', 2, 0, x[0], x[1]], ['t', 3, fa[0], fa[1], fb[0], fb[1]]]
                         subs += [['a', 4, i, 2, o] for i, o in enumerate(perm)]
                         variants = [None, {'persistent': [2], 'prev': [True]}, {'persistent': [2], 'prev': []},
-                                    {'persistent': [2], 'prev': [True, True]}]
+                                    {'persistent': [2], 'prev': ['f', True]}]
                         if full:
                             # (no foreign gid here: in a training segment the persistent list names trained groups only)
                             variants += [{'persistent': [2], 'prev': None}, {'persistent': [2], 'prev': [False]}]
                         for a in variants:
                             yield {'groups': groups, 'nodes': nodes, 'subs': subs, 'head': 0, 'tail': 4, 'assets': a}
+
+
+def enum_falsy():
+    """The corpus shapes (DESIGN's train shape with partial / full persistence, the apply-mode shape) with every
+    assignment of payload kinds to their groups - falsy output, falsy trained state, both - and with truthy / falsy
+    stored states: a falsy payload in every role (data on a port, through a getter, trained state dumped and committed,
+    trained state preset into the applied forks, previous state loaded into trainer and appliers)."""
+    for base in (CORPUS[2], CORPUS[3], CORPUS[4]):
+        gs = base['groups']
+        a = base['assets']
+        prevs = [a['prev'], ['f'] * len(a['persistent'])]
+        if a['prev'] is not None:
+            prevs.append(['f' if (x and i % 2 == 0) else x for i, x in enumerate(a['prev'])])
+        prevs = [p for i, p in enumerate(prevs) if p not in prevs[:i]]
+        for bits in itertools.product(*[([0, 1, 2, 3] if g['stateful'] else [0, 1]) for g in gs]):
+            if not any(bits):
+                continue
+            groups = [dict(g, actor=g['actor'] + FALSY * b) for g, b in zip(gs, bits)]
+            for prev in prevs:
+                yield dict(base, groups=groups, assets=dict(a, prev=prev))
 
 
 CYCLIC = [
@@ -1011,9 +1090,13 @@ class C01(fw.Check):
             'trainer takes features and labels from every ordered pair of upstream ports; every compiled table executed four '
             'times (own commit, external commit, refused external commit of a wrong size); the compiled table itself compared '
             'as canonical instruction trees of all tasks and the committer; a stream of cyclic flows on which '
-            'flow.Segment acceptance and the traversal alone are compared (mechanism-level data).')
+            'flow.Segment acceptance and the traversal alone are compared (mechanism-level data). Round 5: payloads of both '
+            'kinds - 30% of the groups have actors whose output and / or trained state is falsy in Python (bool False, len 0) '
+            'yet carries its provenance, stored and externally committed states are truthy / falsy / absent; the corpus '
+            'shapes with every assignment of payload kinds to their groups (histogram key falsy=y).')
     TRUSTED = [
-        'symbolic actors/payloads (provenance terms): the flow layer is assumed payload-agnostic (parametricity, DESIGN 3)',
+        'symbolic actors/payloads (provenance terms): the flow layer is assumed payload-agnostic (parametricity, DESIGN 3) '
+        'apart from truthiness, which is exercised: payloads are generated truthy and falsy-but-informative in every role',
         'harness interpreter for compiled tables (memoised, dependency ordered) and the fake generation behind the real '
         'asset.State (load by position, dump ids, commit list)',
         'Instruction.__call__ logging wrapper, Builder.__call__, cloudpickle state bytes: replaced by symbols',
@@ -1022,6 +1105,8 @@ class C01(fw.Check):
         'valid segment = acyclic including state edges trainer -> applied forks of its group (D22 shapes are excluded), '
         'every apply port of every non-head member connected, tail without apply subscribers',
         'persistent list: duplicate free, in a training segment a subset of the groups trained in it',
+        'a state that is falsy in Python is no state for the actor it is offered to (Preset.reduce skips it: model, '
+        'specification and oracle say the same), and a state like any other for the dumper and the committer',
         'the member list of a segment is data of the model; that it is the set reachable from the head (decidable '
         '`connected`, proved equivalent to reachability and to visitOrder.Perm uids) is evaluated on every exported case; '
         'the real visit list is compared with the model and judged by a reachability oracle',
@@ -1046,8 +1131,9 @@ class C01(fw.Check):
             a = spec.get('assets')
             line = sexp.dumps(['all', seg_sexp(ex), assets_sexp(a, len(spec['groups'])), ex['order'],
                                [[u, r] for u, r in sorted((rank or {}).items())],
-                               [] if a is None else [['stored', EXT + i] for i in range(len(a['persistent']))],
-                               [] if a is None else [['stored', 2 * EXT + i] for i in range(wrong_count(len(a['persistent'])))]])
+                               [] if a is None else [['stored', ext_index(EXT, i)] for i in range(len(a['persistent']))],
+                               [] if a is None else [['stored', ext_index(2 * EXT, i)]
+                                                     for i in range(wrong_count(len(a['persistent'])))]])
             impls.append((spec, impl))
             lines.append(line)
         answers = self.model(lines)
@@ -1194,7 +1280,9 @@ class C01(fw.Check):
         if mrun not in ('skip', 'cyclic') and mrun[4] != 'true':
             self.diverge('model: memoising run disagrees with Table.value / not once', witness, None, mrun[4])
         kinds = collections.Counter(impl['kinds'])
-        shape = (f'{stream}: w={min(nw, 9) if nw < 9 else "9+"} getters={"y" if kinds["getter"] else "n"} '
+        nfalsy = sum(1 for w in ex['workers'] if w[2] >= FALSY) + (
+            0 if a is None or not a.get('prev') else sum(1 for b in a['prev'] if b == 'f'))
+        shape = (f'{stream}: w={min(nw, 9) if nw < 9 else "9+"} falsy={"y" if nfalsy else "n"} getters={"y" if kinds["getter"] else "n"} '
                  f'trainers={sum(1 for _, d, _ in itab if d[0] == "functor" and d[-1] == "train")} '
                  f'assets={"none" if a is None else len(a["persistent"])}')
         if impl['stage'] == 'run':
@@ -1348,6 +1436,10 @@ class C01(fw.Check):
         for chunk in range(0, len(fam), 1000):
             self._batch(fam[chunk:chunk + 1000], 'valid')
         self.notes.append(f'trainer feature/label port family: {len(fam)} segments')
+        fam = list(enum_falsy())
+        for chunk in range(0, len(fam), 1000):
+            self._batch(fam[chunk:chunk + 1000], 'valid')
+        self.notes.append(f'falsy payload kinds on the corpus shapes: {len(fam)} segments')
         cyc = [c for c in (gen_cyclic(rng, rng.choice([4, 5, 6, 8, 10])) for _ in range(self.n(60, 600))) if c]
         self._cyclic_batch(CYCLIC + cyc)
         specs = []
